@@ -23,7 +23,9 @@ QsAlgs == {"qs", "mpqs", "siqs"}
 \* shapes whose prime factorisation is known by construction (pool primes > 200 unless said otherwise)
 Generic == {"prime", "p2", "pk", "pq", "pq13", "closepq", "p2q", "p2q2", "pqr",
             "smallpq",      \* 5..8 primes < 200 times pq
-            "fbcollide"}    \* one prime factor in 200..2000 times pq
+            "fbcollide",    \* one prime factor in 200..2000 times pq
+            "twotiny"}      \* 2..3 distinct primes in 211..400 (just above trial division, p-1 very smooth: caught
+                            \* together at the same gcd step of P-1 / ECM stage 1) times one large prime
 \* special values (no bit-length dimension of their own: bits is the exponent / size where it applies)
 Special == {"zero", "one", "two", "pow2", "smooth", "le200sq"}
 \* word-boundary values 2^bits - d, 2^bits + d, 2^bits - 1 (factorisation not known by construction)
